@@ -80,7 +80,8 @@ KINDS = ["unary", "producer", "exchanger", "unknown"]
 PARSE_EXC = ["arrowInvalid", "osError", "arrowNotImplemented", "arrowKeyError", "arrowTypeError", "arrowOther",
              "ipcError", "unicodeDecode", "stopIteration"]
 META = ["noMethodKey", "badMethodUtf8", "noVersionKey", "badVersion", "methodMismatch", "protocolVersion"]
-BODIES = ["valid"] + [f"parseFail:{e}" for e in PARSE_EXC] + [f"badMeta:{m}" for m in META] + ["badParams", "cancel"]
+BODIES = (["valid"] + [f"parseFail:{e}" for e in PARSE_EXC] + [f"badMeta:{m}" for m in META]
+          + ["badParams:mismatch", "badParams:badNames", "cancel"])
 CTYPES = ["correct", "wrong", "missing"]
 CENCS = ["none", "supported", "unsupported", "corrupt", "bomb"]
 SIZES = ["within", "oversize"]
@@ -471,7 +472,7 @@ def spec_defects(c: dict[str, str]) -> list[tuple[str, int]]:
     elif body.startswith("badMeta"):
         if route != "exchange":  # request metadata belongs to unary / init requests
             d.append(("malformed", 400))
-    elif body == "badParams":
+    elif body.startswith("badParams"):
         if route != "exchange" or kind == "exchanger":  # a producer continuation's tick columns are not looked at
             d.append(("malformed", 400))
     if route == "exchange" and c["token"] != "valid":
@@ -506,6 +507,25 @@ def _zstd(data: bytes) -> bytes:
     import zstandard
 
     return zstandard.ZstdCompressor(level=3).compress(data)
+
+
+def _spoil_field_name(body: bytes, name: str, rng: Any) -> bytes:
+    """Make the schema's field `name` invalid UTF-8 in place (flatbuffer string: uint32 length, bytes, NUL)."""
+    import struct
+
+    pat = struct.pack("<I", len(name)) + name.encode() + b"\0"
+    i = body.find(pat)
+    assert i >= 0, f"field name {name!r} not found in the serialized schema"
+    b = bytearray(body)
+    b[i + 4 + rng.randrange(len(name))] = rng.choice([0xFF, 0xFE, 0xC0, 0xAE, 0x80])
+    out = bytes(b)
+    st, payload = classify_read(out, "exchange")
+    assert st == "ok", (st, payload)
+    try:
+        list(payload[0].schema.names)
+    except UnicodeDecodeError:
+        return out
+    raise AssertionError("patched field name still decodes")
 
 
 def build_request(env: Env, pool: ParsePool, c: dict[str, str], rng: Any) -> dict[str, Any] | None:
@@ -544,6 +564,7 @@ def build_request(env: Env, pool: ParsePool, c: dict[str, str], rng: Any) -> dic
         edit = None
         schema = None
         rows = None
+        patch_name = None
         if body_cls.startswith("badMeta:"):
             m = body_cls.split(":")[1]
             other = rng.choice([x for x in ("echo", "gen", "exch", "zzz", name + "x", "") if x != name])
@@ -557,7 +578,13 @@ def build_request(env: Env, pool: ParsePool, c: dict[str, str], rng: Any) -> dic
                                    (lambda md: md.__setitem__(PROTOCOL_VERSION_KEY, rng.choice([b"2.0.0", b"1.3.9", b"1.5.0", b"x", b"1.4", b"\xff"]))),
             }[m]
             notes["meta"] = m
-        elif body_cls == "badParams":
+        elif body_cls == "badParams:badNames":
+            sch0 = env.schemas.get(name, pa.schema([]))
+            if not len(sch0):
+                schema = pa.schema([pa.field("zz", pa.int64())])
+                kwargs = {"zz": 1}
+            patch_name = (schema if schema is not None else sch0).field(0).name
+        elif body_cls == "badParams:mismatch":
             sch0 = env.schemas.get(name, pa.schema([]))
             variant = rng.choice(["extra", "missing", "renamed", "rows0", "rows2", "type"] if len(sch0) else ["extra", "rows2x"])
             notes["params"] = variant
@@ -593,6 +620,9 @@ def build_request(env: Env, pool: ParsePool, c: dict[str, str], rng: Any) -> dic
                 edit(md)
 
         plain = env.request(name, kwargs, md_edit=edit2, schema=schema, rows=rows)
+        if patch_name is not None:
+            plain = _spoil_field_name(plain, patch_name, rng)
+            notes["params"] = "badNames"
         notes["kwargs"] = {k: v for k, v in kwargs.items()}
     else:
         # /exchange: an input batch carrying tokens
@@ -648,7 +678,11 @@ def build_request(env: Env, pool: ParsePool, c: dict[str, str], rng: Any) -> dic
                 "methodMismatch": {RPC_METHOD_KEY: b"some_other_method", REQUEST_VERSION_KEY: b"1"},
                 "protocolVersion": {PROTOCOL_VERSION_KEY: b"9.9.9"},
             }[m])
-        elif body_cls == "badParams":
+        elif body_cls == "badParams:badNames":
+            sch = IN_SCHEMA
+            batch = pa.RecordBatch.from_pydict({"v": [v]}, schema=IN_SCHEMA)
+            notes["params"] = "badNames"
+        elif body_cls == "badParams:mismatch":
             variant = rng.choice(["renamed", "extra", "missing"])
             notes["params"] = variant
             if variant == "renamed":
@@ -665,6 +699,8 @@ def build_request(env: Env, pool: ParsePool, c: dict[str, str], rng: Any) -> dic
             if rng.random() < 0.5:
                 batch = batch.slice(0, 0)
         plain = _ipc(sch, [(batch, md)])
+        if body_cls == "badParams:badNames":
+            plain = _spoil_field_name(plain, "v", rng)
         base_kind = f"exchange:{'gen' if kind == 'producer' else 'exch'}"
         notes["v"] = v
 
